@@ -28,6 +28,7 @@ import Driver.RProgH
 import Driver.InterTDH
 import Driver.ArrXH
 import Driver.CrawlCH
+import Driver.OWidenH
 
 /-!
   crabdrv : line-protocol driver.  Reads cases on stdin, one per line
@@ -63,6 +64,7 @@ def dispatch (comp op : String) (args res : List Sexp) : Verdict :=
   | "arr" => handleArrX op args res
   | "inter" => handleInter3 op args res
   | "zw" => handleZw op args res
+  | "ow" => handleOw op args res
   | "xdom" => handleXDom op args res
   | "rprog" => handleRprog op args res
   | "idom" => handleIDom op args res
